@@ -82,6 +82,37 @@ package termincommittee
 //@   | && cm.content.SignedHeader().MessageType() == protocol.LEAN_HELIX_COMMIT && Canonical(cm.content.SignedHeader())
 //@   | && IsMember(tic.committeeMembers, cm.content.Sender().MemberId())
 
+// ---- C11: what a correct node emits, a correct peer in a matching state accepts ----
+// The consumer side: the conditions under which a handler counts (stores) a received message - every rejecting branch
+// is excluded by them (completeness postconditions O11.2 of the handlers). The producer side: what this node hands to
+// the Communication SPI satisfies EmittedX (obligations O11.1 at every send site). The lemmas L11 (ghost functions in
+// lemmas_verif.go) connect the two for two nodes of one committee.
+//@ pred AcceptsPrepare(tic *TermInCommittee, pm *interfaces.PrepareMessage) = PrepareOK(tic, pm) && pm.content.SignedHeader().View() >= tic.State.view
+//@ pred AcceptsCommit(tic *TermInCommittee, cm *interfaces.CommitMessage) = CommitOK(tic, cm)
+//@ pred EmittedPrepare(tic *TermInCommittee, pm *interfaces.PrepareMessage) = PrepareOK(tic, pm) && pm.content.Sender().MemberId() == tic.myMemberId
+//@   | && pm.content.SignedHeader().BlockHeight() == tic.State.height && pm.content.SignedHeader().View() == tic.State.view
+//@ pred EmittedCommit(tic *TermInCommittee, cm *interfaces.CommitMessage) = CommitOK(tic, cm) && cm.content.Sender().MemberId() == tic.myMemberId
+//@   | && cm.content.SignedHeader().BlockHeight() == tic.State.height
+// two correct members of one committee at one height: same member list, and their key managers give the same verdicts
+// (A-KM-AGREE: verification is a function of the public data, the same at every correct node)
+//@ pred SameCommittee(a *TermInCommittee, b *TermInCommittee) = len(a.committeeMembers) == len(b.committeeMembers)
+//@   | && (forall ci :: 0 <= ci && ci < len(a.committeeMembers) ==> a.committeeMembers[ci].Id == b.committeeMembers[ci].Id && a.committeeMembers[ci].Weight == b.committeeMembers[ci].Weight)
+//@ pred KeysAgree(a *TermInCommittee, b *TermInCommittee) = forall kh int, kraw Str, kid Str, ksg Str :: VerifiedMsg(a.keyManager, kh, kraw, kid, ksg) == VerifiedMsg(b.keyManager, kh, kraw, kid, ksg)
+
+//@ func lemmaC11Prepare
+//@   props C11
+//@   requires TicOK(a) && TicOK(b) && pm != nil && pm.content != nil
+//@   requires [matching-state.same-committee-and-keys] SameCommittee(a, b) && KeysAgree(a, b)
+//@   requires [emitted-by-a] EmittedPrepare(a, pm)
+//@   requires [unless-the-peer-view-is-already-higher] pm.content.SignedHeader().View() >= b.State.view
+//@   ensures [L11.an-emitted-prepare-is-acceptable-to-the-peer] AcceptsPrepare(b, pm)
+//@ func lemmaC11Commit
+//@   props C11
+//@   requires TicOK(a) && TicOK(b) && cm != nil && cm.content != nil
+//@   requires [matching-state.same-committee-and-keys] SameCommittee(a, b) && KeysAgree(a, b)
+//@   requires [emitted-by-a] EmittedCommit(a, cm)
+//@   ensures [L11.an-emitted-commit-is-acceptable-to-the-peer] AcceptsCommit(b, cm)
+
 // ---- Storage SPI (A-STORE) ----
 //@ iface interfaces.Storage.StorePrepare
 //@   requires [O8.2.verified] pp != nil && pp.content != nil && Signed(caller, pp.content.SignedHeader(), pp.content.Sender())
@@ -91,8 +122,9 @@ package termincommittee
 //@   requires [O8.2.not-from-leader] pp.content.Sender().MemberId() != LeaderOf(caller.committeeMembers, pp.content.SignedHeader().View())
 //@   requires [O8.2.height] pp.content.SignedHeader().BlockHeight() == caller.State.height
 //@   requires [O8.2.not-stale] pp.content.SignedHeader().View() >= caller.State.view
-//@   modifies ghost:pver
+//@   modifies ghost:pver, ghost:countedP
 //@   ensures pver == old(pver) + 1
+//@   ensures [counted] countedP[pp]
 //@   ensures [A-STORE.stored-sender-is-listed] len(PIds(self, pver, pp.content.SignedHeader().BlockHeight(), pp.content.SignedHeader().View(), pp.content.SignedHeader().BlockHash())) >= 1
 //@   ensures [A-STORE.log-only-grows] forall qh int, qv int, qx Str :: len(PIds(self, pver, qh, qv, qx)) >= len(PIds(self, old(pver), qh, qv, qx))
 
@@ -102,8 +134,9 @@ package termincommittee
 //@   requires [O3.canonical-header] Canonical(cm.content.SignedHeader())
 //@   requires [O8.3.member] IsMember(caller.committeeMembers, cm.content.Sender().MemberId())
 //@   requires [O8.3.height] cm.content.SignedHeader().BlockHeight() == caller.State.height
-//@   modifies ghost:cver
+//@   modifies ghost:cver, ghost:countedC
 //@   ensures cver == old(cver) + 1
+//@   ensures [counted] countedC[cm]
 
 // first proposal stored for a view wins (C10: one accepted proposal per view)
 //@ iface interfaces.Storage.StorePreprepare
@@ -181,6 +214,8 @@ package termincommittee
 //@   requires [O10.2.one-new-view-per-view] istype(message, *interfaces.NewViewMessage) ==> !proposed[dyn(message, *interfaces.NewViewMessage).content.SignedHeader().View()]
 //@     | && dyn(message, *interfaces.NewViewMessage).content.SignedHeader().View() == tic.State.view
 //@     | && tic.myMemberId == LeaderOf(tic.committeeMembers, dyn(message, *interfaces.NewViewMessage).content.SignedHeader().View())
+//@   requires [C11:O11.1.an-emitted-prepare-is-one-a-peer-accepts] istype(message, *interfaces.PrepareMessage) ==> EmittedPrepare(tic, dyn(message, *interfaces.PrepareMessage))
+//@   requires [C11:O11.1.an-emitted-commit-is-one-a-peer-accepts] istype(message, *interfaces.CommitMessage) ==> EmittedCommit(tic, dyn(message, *interfaces.CommitMessage))
 //@   modifies ghost:sentPrepare, ghost:sentPrepareHash, ghost:sentCommit, ghost:sentCommitHash, ghost:proposed
 //@   ensures istype(message, *interfaces.PreprepareMessage) ==> proposed[dyn(message, *interfaces.PreprepareMessage).content.SignedHeader().View()]
 //@   ensures istype(message, *interfaces.NewViewMessage) ==> proposed[dyn(message, *interfaces.NewViewMessage).content.SignedHeader().View()]
@@ -214,21 +249,23 @@ package termincommittee
 //@   requires [term-not-yet-committed] ncommitted == 0
 //@   ensures [O9.lock-kept] LockKept(tic, old(tic.preparedLocally), old(tic.preparedLocally.isPreparedLocally), old(tic.preparedLocally.latestView))
 //@   inv GhostInv(tic)
-//@   props C08 C10 C03 C09 C12
+//@   props C08 C10 C03 C09 C12 C11
 //@   safety iface
 //@   requires TicOK(tic)
 //@   requires [FilterOK] pm != nil && pm.content != nil && pm.content.SignedHeader().BlockHeight() == tic.State.height && pm.content.Sender().MemberId() != tic.myMemberId
-//@   modifies @TIC
+//@   modifies @TIC, ghost:countedP, ghost:countedC
+//@   ensures [C11:O11.2.an-acceptable-prepare-is-counted] old(AcceptsPrepare(tic, pm)) ==> countedP[pm]
 
 //@ func (*TermInCommittee).HandleCommit
 //@   requires [term-not-yet-committed] ncommitted == 0
 //@   ensures [O9.lock-kept] LockKept(tic, old(tic.preparedLocally), old(tic.preparedLocally.isPreparedLocally), old(tic.preparedLocally.latestView))
 //@   inv GhostInv(tic)
-//@   props C08 C10 C03 C09 C12
+//@   props C08 C10 C03 C09 C12 C11
 //@   safety iface
 //@   requires TicOK(tic)
 //@   requires [FilterOK] cm != nil && cm.content != nil && cm.content.SignedHeader().BlockHeight() == tic.State.height && cm.content.Sender().MemberId() != tic.myMemberId
-//@   modifies @TIC
+//@   modifies @TIC, ghost:countedC
+//@   ensures [C11:O11.2.an-acceptable-commit-is-counted] old(AcceptsCommit(tic, cm)) ==> countedC[cm]
 
 //@ func (*TermInCommittee).checkPreparedLocally
 //@   requires [term-not-yet-committed] ncommitted == 0
@@ -236,11 +273,11 @@ package termincommittee
 //@   requires [counted-only-from-current-view-on] view >= tic.State.view
 //@   ensures [O9.lock-kept] LockKept(tic, old(tic.preparedLocally), old(tic.preparedLocally.isPreparedLocally), old(tic.preparedLocally.latestView))
 //@   inv GhostInv(tic)
-//@   props C10 C03 C09 C12
+//@   props C10 C03 C09 C12 C11
 //@   safety iface
 //@   requires TicOK(tic)
 //@   requires blockHeight == tic.State.height
-//@   modifies @TIC
+//@   modifies @TIC, ghost:countedC
 //@   assert before call sendConsensusMessage [O10.4.prepared-certificate] isPrepared && len(quorumIds) == len(PIds(tic.storage, pver, blockHeight, view, blockHash)) + 1
 //@     | && (forall i :: 0 <= i && i < len(quorumIds) - 1 ==> quorumIds[i] == PIds(tic.storage, pver, blockHeight, view, blockHash)[i])
 
@@ -250,7 +287,7 @@ package termincommittee
 //@   requires [term-not-yet-committed] ncommitted == 0
 //@   ensures [O9.lock-kept] LockKept(tic, old(tic.preparedLocally), old(tic.preparedLocally.isPreparedLocally), old(tic.preparedLocally.latestView))
 //@   inv GhostInv(tic)
-//@   props C03 C04 C10 C13 C09 C15 C12
+//@   props C03 C04 C10 C13 C09 C15 C12 C11
 //@   safety iface
 //@   requires TicOK(tic)
 //@   requires blockHeight == tic.State.height
@@ -260,7 +297,7 @@ package termincommittee
 
 //@ func (*TermInCommittee).sendCommitIfNotAlreadySent
 //@   requires [term-not-yet-committed] ncommitted == 0
-//@   props C10 C03 C12
+//@   props C10 C03 C12 C11
 //@   safety iface
 //@   requires TicOK(tic)
 //@   inv GhostInv(tic)
@@ -306,14 +343,14 @@ package termincommittee
 //@ func (*TermInCommittee).processPreprepare
 //@   requires [term-not-yet-committed] ncommitted == 0
 //@   ensures [O9.lock-kept] LockKept(tic, old(tic.preparedLocally), old(tic.preparedLocally.isPreparedLocally), old(tic.preparedLocally.latestView))
-//@   props C04 C07 C08 C10 C09 C12
+//@   props C04 C07 C08 C10 C09 C12 C11
 //@   safety iface
 //@   requires TicOK(tic)
 //@   inv GhostInv(tic)
 //@   requires [adopt.authentic-proposal] ProposalOK(tic, ppm)
 //@   requires [adopt.first-for-view] !ppStored[ppm.content.SignedHeader().View()]
 //@   requires [adopt.not-my-own] ppm.content.Sender().MemberId() != tic.myMemberId
-//@   modifies @TIC
+//@   modifies @TIC, ghost:countedP, ghost:countedC
 
 //@ func (*TermInCommittee).HandlePrePrepare
 //@   assert before call For [O15.7.validation-runs-under-the-context-of-the-proposal-view] $hv.height == tic.State.height && $hv.view == ppm.content.SignedHeader().View()
@@ -324,7 +361,7 @@ package termincommittee
 //@   requires TicOK(tic)
 //@   inv GhostInv(tic)
 //@   requires [FilterOK] ppm != nil && ppm.content != nil && ppm.content.SignedHeader().BlockHeight() == tic.State.height && ppm.content.Sender().MemberId() != tic.myMemberId
-//@   modifies @TIC
+//@   modifies @TIC, ghost:countedP, ghost:countedC
 //@   assert before call processPreprepare [C07:O7.5.standalone-proposal-only-in-view-0] ppm.content.SignedHeader().View() == 0
 
 // ---------------- NEW_VIEW (C07) ----------------
@@ -414,7 +451,7 @@ package termincommittee
 //@   requires TicOK(tic)
 //@   inv GhostInv(tic)
 //@   requires [FilterOK] nvm != nil && nvm.content != nil && nvm.content.SignedHeader().BlockHeight() == tic.State.height && nvm.content.Sender().MemberId() != tic.myMemberId
-//@   modifies @TIC
+//@   modifies @TIC, ghost:countedP, ghost:countedC
 //@   loop iter viewChangeConfirmationsIter
 //@     invariant [src] iter_src(viewChangeConfirmationsIter) == nvmHeader && nvmHeader == nvm.content.SignedHeader()
 //@     invariant [pos] iter_pos(viewChangeConfirmationsIter) == len(viewChangeConfirmations) && iter_pos(viewChangeConfirmationsIter) <= seq_len(nvmHeader, "ViewChangeConfirmations")
@@ -456,8 +493,9 @@ package termincommittee
 //@   requires [O8.4.proof-comes-with-its-block] vcm.content.Sender().MemberId() == caller.myMemberId || (vcm.content.SignedHeader().PreparedProof() != nil && len(vcm.content.SignedHeader().PreparedProof().Raw()) > 0 ==>
 //@     | vcm.block != nil && vcm.block.Height() == vcm.content.SignedHeader().BlockHeight() && Commits(caller.blockUtils, vcm.content.SignedHeader().BlockHeight(), vcm.block, vcm.content.SignedHeader().PreparedProof().PreprepareBlockRef().BlockHash()))
 //@   requires [O8.4.block-comes-with-its-proof] vcm.content.Sender().MemberId() == caller.myMemberId || (vcm.block != nil ==> vcm.content.SignedHeader().PreparedProof() != nil && len(vcm.content.SignedHeader().PreparedProof().Raw()) > 0)
-//@   modifies ghost:vcver
+//@   modifies ghost:vcver, ghost:countedVC
 //@   ensures vcver == old(vcver) + 1
+//@   ensures [counted] countedVC[vcm]
 
 //@ iface interfaces.Storage.GetViewChangeMessages
 //@   ensures result0 == VCMsgs(self, vcver, blockHeight, view)
@@ -472,7 +510,7 @@ package termincommittee
 //@   requires TicOK(tic)
 //@   inv GhostInv(tic)
 //@   requires [FilterOK] vcm != nil && vcm.content != nil && vcm.content.SignedHeader().BlockHeight() == tic.State.height && vcm.content.Sender().MemberId() != tic.myMemberId
-//@   modifies @TIC
+//@   modifies @TIC, ghost:countedVC
 
 // the election path of the leader-to-be
 //@ func (*TermInCommittee).checkElected
@@ -532,7 +570,7 @@ package termincommittee
 //@   requires TicOK(tic)
 //@   inv GhostInv(tic)
 //@   requires [term-not-yet-committed] ncommitted == 0
-//@   modifies @TIC
+//@   modifies @TIC, ghost:countedVC
 //@   ensures [O9.lock-kept] LockKept(tic, old(tic.preparedLocally), old(tic.preparedLocally.isPreparedLocally), old(tic.preparedLocally.latestView))
 //@   ensures [O19.6.stale-trigger-changes-nothing] !(height == old(tic.State.height) && view == old(tic.State.view)) ==> tic.State.view == old(tic.State.view) && lastVC == old(lastVC)
 //@     | && tic.preparedLocally == old(tic.preparedLocally) && tic.latestViewThatProcessedVCMOrNVM == old(tic.latestViewThatProcessedVCMOrNVM) && vcver == old(vcver)
